@@ -886,7 +886,7 @@ inline void CoreSMTSolver::printSMTClause(std::ostream & os, const C& c )
     for (unsigned i = 0; i < c.size(); i++)
     {
         Var v = var(c[i]);
-        if (v <= 1) continue;
+        // The literals of the constants true / false are printed as well: a printed proof resolves on them
         os << (sign(c[i]) ? "(not " : "") << theory_handler.getVarName(v) << (sign(c[i]) ? ") " : " ");
     }
     if (c.size( ) > 1) os << ")";
